@@ -321,6 +321,10 @@ def _one_transition(spec, hist, trace, op):
     n_tr = 1
     got = spec.apply(objs, op)
     model1, want = spec.step_model(model0, op)
+    # the canonical key is taken right after the operation, BEFORE the invariant's probe calls touch the evaluators: a history
+    # is extended by replaying its operations only, so "has been called" must be visible as a different state (an attribute
+    # cached at the first call)
+    key0 = spec.key(objs, model1)
     viol = None
     if op[0] == "call":
         if got != want:
@@ -342,7 +346,7 @@ def _one_transition(spec, hist, trace, op):
             if bad:
                 s, k, xi, g, w = bad[0]
                 viol = f"after re-issuing {op}: slot {s} (text {k!r}) returns {g!r} for input {xi}, fresh: {w!r}"
-    key = None if viol else spec.key(objs, model1)
+    key = None if viol else key0
     return {"viol": viol, "got": got, "key": key, "outs": outs + [got], "n_tr": n_tr,
             "probes": sum(1 for m in model1 if m is not None) * len(spec.inputs)}  # fmt: skip
 
